@@ -120,3 +120,16 @@ Example ex_disabled_two_holders :
   locking cf_off = false /\ slot_of ex_off 0 0 = Some (H false true false 0) /\
   slot_of ex_off 1 0 = Some (H false true false 0) /\ owner (gl ex_off) = None /\ nacq (gl ex_off) = 0%nat.
 Proof. vm_compute. repeat split. Qed.
+
+(* ---------- deferred_guarded (anchored in C08 as well): its try / timed shared acquisitions and the
+   submit paths of modify_detach / modify_async never wait for other holders ---------- *)
+From GV Require DeferredModel DeferredProofs.
+Theorem def_try_never_blocks_C08 : forall t c (g : DeferredModel.glob) l,
+  (match DeferredModel.at_ l with
+   | DeferredModel.M_try _ | DeferredModel.P_try _ | DeferredModel.S_acq (DeferredModel.AcTry _) => True
+   | _ => False end) ->
+  exists r, DeferredModel.tstep t c g l = Some r.
+Proof. exact DeferredProofs.trylock_never_blocks. Qed.
+Theorem def_timed_gives_up_C08 : forall t (g : DeferredModel.glob) l h,
+  DeferredModel.at_ l = DeferredModel.S_acq (DeferredModel.AcFor h) -> exists r, DeferredModel.tstep t 2 g l = Some r.
+Proof. exact DeferredProofs.timed_gives_up. Qed.
